@@ -159,6 +159,42 @@ def run(chk):
         if dev > 2e3 * eps or list(d1.times) != list(d2.times):
             chk.fail("methods-disagree", f"MeanFieldTempo and compute_dynamics_with_field differ by {dev:.2e}", info)
 
+    # ---- systems that do not depend on the field: each evolves exactly as in a plain TEMPO run / plain compute_dynamics with
+    # the same (explicitly time-dependent) Hamiltonian, rates and Lindblad operators ---------------------------------------
+    for it in range(9 if (thorough or chk.disagreements or chk.broken) else 3):
+        eps = 1e-8
+        dt, N = rng.choice([0.1, 0.05]), rng.randint(3, 6)
+        start = rng.choice([0.0, 0.7, -1.1])
+        corr = oqupy.PowerLawSD(alpha=0.15, zeta=1, cutoff=2.0, cutoff_type="exponential", temperature=0.2)
+        bath = oqupy.Bath(0.5 * SZ, corr)
+        par = oqupy.TempoParameters(dt=dt, epsrel=eps, dkmax=rng.choice([None, 3]), subdiv_limit=rng.choice([None, 256]))
+        hfun = lambda t: 0.4 * SX + 0.3 * np.sin(1.7 * t) * SZ
+        gfun = lambda t: 0.05 + 0.6 * abs(t - start)
+        lfun = lambda t: oqupy.operators.sigma("-") + 0.2 * np.cos(t) * SZ
+        sysf = oqupy.TimeDependentSystemWithField(lambda t, a: hfun(t), gammas=[lambda t: gfun(t)], lindblad_operators=[lambda t: lfun(t)])
+        sysp = oqupy.TimeDependentSystem(hfun, gammas=[gfun], lindblad_operators=[lfun])
+        mfs = oqupy.MeanFieldSystem([sysf], field_eom=lambda t, st, a: 0.3 * t - 0.1 * a)
+        rho = oqupy.operators.spin_dm("x+")
+        info = {"kind": "field-independent", "dt": dt, "N": N, "start": start, "subdiv_limit": par.subdiv_limit}
+        try:
+            mf = quiet(oqupy.MeanFieldTempo(mfs, [bath], par, [rho], 0.1 + 0j, start).compute, start + N * dt, progress_type="silent")
+            pl = quiet(oqupy.Tempo(sysp, bath, par, rho, start).compute, start + N * dt, progress_type="silent")
+            pt = quiet(oqupy.pt_tempo_compute, bath, start, start + N * dt, parameters=par, progress_type="silent")
+            cf = quiet(oqupy.compute_dynamics_with_field, mfs, 0.1 + 0j, process_tensor_list=[pt], start_time=start, initial_state_list=[rho],
+                       subdiv_limit=par.subdiv_limit, progress_type="silent")
+            cd = quiet(oqupy.compute_dynamics, sysp, initial_state=rho, process_tensor=pt, start_time=start, subdiv_limit=par.subdiv_limit, progress_type="silent")
+        except Exception as ex:
+            chk.fail("meanfield-raises", f"mean-field drivers raise {ex!r}", info)
+            continue
+        chk.search_cases += 1
+        chk.count("field_independent")
+        chk.case(info, ("fieldindep", dt, N, start, par.subdiv_limit, it))
+        d1 = np.abs(np.array(mf.system_dynamics[0].states) - np.array(pl.states)).max()
+        d2_ = np.abs(np.array(cf.system_dynamics[0].states) - np.array(cd.states)).max()
+        if max(d1, d2_) > 2e3 * eps:
+            chk.fail("field-independent-differs-from-plain", f"a system that ignores the field does not evolve as in the plain computation: MeanFieldTempo vs Tempo "
+                     f"{d1:.2e}, compute_dynamics_with_field vs compute_dynamics {d2_:.2e} (time-dependent Hamiltonian, rate and Lindblad operator)", info)
+
     return chk.finish(
         level="proof",
         trusted=["model: Model/MeanField.v on primitive floats; the states passed to field_eom are identified through <sigma_z> of a known rotation",
